@@ -2,5 +2,6 @@ SPECIFICATION Spec
 CONSTANTS L = 5
  CLASSES = {"val", "pre", "suf", "bin", "comma", "cond", "else", "open", "close", "nopen", "nclose", "sopen", "sclose", "sep", "term"}
  SEPS = {"blank", "none"}
+ BALANCED = FALSE
 INVARIANT Emit
 CHECK_DEADLOCK FALSE
